@@ -94,20 +94,25 @@ def checkCodeImpl (src : Bytes) (content : Bytes) : CodeRead :=
 
 /-! ## Toy codec -/
 
-def toyPickle (compress : Bool) (v : Val) : Bytes := [if compress then 120 else 128, v.ver, v.arg, 46]
+def toyPickle (compress : Bool) (v : Val) : Bytes := [if compress then 120 else 128, v.ver, v.arg, v.gen, 46]
 
 def toyUnpickle : Bytes → Option Val
-  | [m, a, b, 46] => if m = 120 ∨ m = 128 then some ⟨a, b⟩ else none
+  | [m, a, b, g, 46] => if m = 120 ∨ m = 128 then some ⟨a, b, g⟩ else none
   | _ => none
 
-def toyMeta : Bytes := [123, 116, 125]
+/-- `{"time": <stamp>}` -/
+def toyMeta (stamp : Nat) : Bytes := [123, 116, stamp, 125]
+
+def toyMetaStamp : Bytes → Option Nat
+  | [123, 116, t, 125] => some t
+  | _ => none
 
 /-- `srcs`: source text of each version (index = version). -/
 def mkCodec (compress : Bool) (firstLine : Nat) (srcs : List Bytes) : Codec where
   pickle := toyPickle compress
   unpickle := toyUnpickle
   metaText := toyMeta
-  metaHasTime := fun d => d == toyMeta
+  metaStamp := toyMetaStamp
   codeText := fun v => codeTextOf firstLine (srcs.getD v [])
   checkCode := fun v d => checkCodeImpl (srcs.getD v []) d
   gitText := [35, 10, 42, 10]
@@ -226,27 +231,38 @@ structure Env where
   firstLine : Nat
   srcs : List Bytes
 
-/-- `call:a=3,ver=1,cb=none,shelve=0,me=0,legacy=0,compress=0` | `reduce:me=0,victims=4.5` | `clear:me=0` |
-`fclear:me=0,ver=0` | `iclear:a=3,me=0,ver=0` -/
+/-- `cb=none|long|now|since<g>` -/
+def parseCallback (s : String) : Option Callback :=
+  if s = "none" then some .none
+  else if s = "long" then some (.expires true)
+  else if s = "now" then some (.expires false)
+  else match stripPrefix? "since" s with
+    | some n => n.toNat?.map .since
+    | none => none
+
+/-- `call:a=3,ver=1,cb=none,shelve=0,me=0,legacy=0[,compress=0][,gen=0]` | `reduce:me=0,victims=4.5` | `clear:me=0` |
+`fclear:me=0,ver=0` | `iclear:a=3,me=0,ver=0`. `gen` (the generation the process lives in) and `compress` are 0 when
+absent; when present they must parse. -/
 def parseProc (env : Env) (s : String) : Option (ProcSpec × List (String × String)) :=
   match s.splitOn ":" with
   | [kind, args] => do
     let l ← parseKVs args
     let me ← kvNat l "me"
-    let compress := (kvBool l "compress").getD false
+    let compress ← match kv l "compress" with
+      | none => some false
+      | some _ => kvBool l "compress"
+    let gen ← match kv l "gen" with
+      | none => some 0
+      | some _ => kvNat l "gen"
     let codec := mkCodec compress env.firstLine env.srcs
     let rank := rankOf env.order
     if kind = "call" then do
       let a ← kvNat l "a"
       let ver ← kvNat l "ver"
-      let cb ← match kv l "cb" with
-        | some "none" => some Callback.none
-        | some "long" => some (Callback.expires true)
-        | some "now" => some (Callback.expires false)
-        | _ => none
+      let cb ← (kv l "cb").bind parseCallback
       let shelve ← kvBool l "shelve"
       let legacy ← kvBool l "legacy"
-      pure (.call a { codec, me, ver, callback := cb, shelve, rank, legacy }, l)
+      pure (.call a { codec, me, ver, gen, callback := cb, shelve, rank, legacy }, l)
     else if kind = "reduce" then do
       let v ← (kv l "victims").bind parseNats
       pure (.reduce v { codec, me, ver := 0, rank }, l)
@@ -262,7 +278,8 @@ def parseProc (env : Env) (s : String) : Option (ProcSpec × List (String × Str
     else none
   | _ => none
 
-def valToString (v : Val) : String := s!"v{v.ver}.{v.arg}"
+/-- `v<ver>.<arg>`, followed by `@<gen>` for a value of a generation other than 0 -/
+def valToString (v : Val) : String := if v.gen = 0 then s!"v{v.ver}.{v.arg}" else s!"v{v.ver}.{v.arg}@{v.gen}"
 
 /-- All process kinds as programs returning a printable result. -/
 def progOf : ProcSpec → Prog String
